@@ -248,11 +248,55 @@ def sibling_scans(rnd, acc):
     acc.count("statements_written_relative_to_module_path_parent", n)
 
 
+def rescans_after_edit(rnd, acc, forced=None):
+    """One tree scanned, some files replaced by other sources IN PLACE with their timestamps restored (a generator
+    with a fixed SOURCE_DATE_EPOCH, cp -p, rsync -t, an archive unpacked over the tree), scanned again at the same
+    path in the same process: the second architecture is judged against the files as they are then."""
+    import os
+
+    from pytestarch import get_evaluable_architecture
+
+    if forced:
+        first, second = forced["first"], forced["second"]
+    else:
+        first = trees.random_project(rnd, depth=3, imports_per_file=(1, 4), externals=0.0, name_imports=0.2, extras=False)
+        # the same layout with freshly drawn import statements
+        second = {"root": first["root"], "dirs": list(first["dirs"]), "files": dict(first["files"])}
+        files = sorted(f for f in first["files"] if f.endswith(".py"))
+        mods = [trees.mod_of("proj", f) for f in files if all(p.isidentifier() for p in f[:-3].split("/"))]
+        for f in rnd.sample(files, max(1, len(files) // 2)):
+            me = trees.mod_of("proj", f)
+            cands = [m for m in mods if m != me and not me.startswith(m + ".")]
+            lines = [rnd.choice([f"import {t}", f"from {t} import some_function", f"import {t} as q"]) for t in rnd.sample(cands, min(len(cands), rnd.randint(0, 3)))]
+            second["files"][f] = "\n".join(lines) + "\ndef some_function():\n    return 2\n"
+    case = {"kind": "rescan-after-edit", "first": first, "second": second}
+    root = trees.write_tree(first, sub="RESCAN")
+    try:
+        HUB.case = case
+        get_evaluable_architecture(root, root)
+        for f, src in second["files"].items():
+            if src != first["files"].get(f):
+                p = os.path.join(root, f)
+                st = os.stat(p)
+                with open(p, "w") as fh:
+                    fh.write(src)
+                os.utime(p, ns=(st.st_atime_ns, st.st_mtime_ns))
+        get_evaluable_architecture(root, root)
+        se = HUB.scan_events[-1]
+        attribute_scan_findings(se, {"edge-missing": "C02", "edge-extra": "C02"}, case)
+        acc.evaluated(len(se.model.statements) if se.model else 0)
+        acc.count("rescans_after_in_place_edit")
+    finally:
+        trees.remove_tree(root)
+
+
 def random_projects(spec, acc):
     rnd = random.Random(spec["seed"])
     for i in range(spec["n"]):
         if i % 4 == 0:
             sibling_scans(rnd, acc)
+        if i % 3 == 0:
+            rescans_after_edit(rnd, acc)
         tspec = trees.random_project(rnd, imports_per_file=(0, 4), externals=0.1, dangling=0.05)
         dirs = trees.all_dirs(tspec)
         mp_rel = rnd.choice(dirs) if rnd.random() < 0.4 else ""
@@ -326,6 +370,8 @@ def replay(case, acc):
         check_positions_project(paths, acc, case["importer"])
     elif case["kind"] == "random":
         scan_and_attribute(case["spec"], acc, case, case["mp"])
+    elif case["kind"] == "rescan-after-edit":
+        rescans_after_edit(random.Random(0), acc, forced=case)
     else:
         HOSTILE_ONE = {case["name"]: case["spec"]["files"]["pk/imp.py"]}
         saved = dict(HOSTILE)
@@ -347,6 +393,8 @@ def floors(acc, tier):
         why.append("not every built position was covered")
     if acc.counters["statements_written_relative_to_module_path_parent"] < 10:
         why.append("too few imports written relative to module_path's parent")
+    if acc.counters["rescans_after_in_place_edit"] < 20:
+        why.append("too few re-scans after an in-place edit with restored timestamps")
     if acc.counters["scans_judged"] < 20:
         why.append("too few scans judged by the monitor")
     for f in FORMS:
